@@ -187,7 +187,8 @@ LEXT2 = {
     'module_from_spec': {'result': 'any', 'as': 'mkmodule'},
     'loader.exec_module': {'raises_any': True, 'as': 'exec'},
 }
-LOCKED = "ext_names()[0] == 'acquire_lock' and ext_names()[-1] == 'release_lock'"
+LOCKED = ("ext_names()[0] == 'acquire_lock' and ext_names()[-1] == 'release_lock' and "
+          "ext_index('acquire_lock', 1) == -1 and ext_index('release_lock', 1) == -1")
 CONTRACTS.append(Contract(
     ML + "._load", params={"self": "rec[%s]" % ML, "base": "str", "filename": "str"},
     ensures=[
@@ -205,5 +206,5 @@ CONTRACTS.append(Contract(
             '*': {'ensures': [LOCKED, "ext_raised_in('exec')", "ext_index('setitem') == -1"]}},
     result="any",
     ghost={'externals': LEXT2, 'open_world': True, 'opaque_subscript': True},
-    serves=["C15"],
+    serves=["C15", "C14"],
     notes="sys.modules is an opaque mapping: reads and the store are events of the ghost trace"))
